@@ -947,5 +947,100 @@ true => vpar_try_map_collect(sources, |source: T| -> (o: Result<(T, HashMap<T, S
         // [C08.multi_source.one_entry_per_source]
         r.is_ok() ==> forall|i: int| 0 <= i < sources@.len() ==> r.unwrap()@.contains_key(#[trigger] sources@[i]),
 //@ end
+
+// ---- all_pairs: one search per node through a lazily mapped range (sequential) or rayon (parallel) ----
+// R-ext (A5): `(0..n).collect::<Vec<_>>().into_iter().map(f)` targets a local declaration returning the same opaque iterator type,
+// ASSUMED to call f on 0..n; the closure f stays in place and is verified
+#[verifier::external_body]
+pub fn vlazy_range_map<'a, X: 'a, F: FnMut(usize) -> X + 'a>(n: usize, f: F) -> (r: impl Iterator<Item = X> + 'a)
+    requires forall|i: usize| i < n ==> call_requires(f, (i,)),
+{ (0..n).collect::<Vec<_>>().into_iter().map(f) }
+
+//@ extract fn src/algorithms/shortest_path/dijkstra.rs all_pairs_iter props=C08,C20
+//@ rewrite
+let x = (0..graph.number_of_nodes())
+        .collect::<Vec<_>>()
+        .into_iter()
+        .map(move |node_index| {
+//@ with
+let x = vlazy_range_map(graph.number_of_nodes(), move |node_index: usize| -> (o: Result<(usize, Vec<(usize, ShortestPathInfo<usize>)>), Error>)
+            requires node_index < graph.n(), graph.wf_nodes(), graph.wf_rows(), target_index.is_some() ==> target_index.unwrap() < graph.n(),
+            ensures match o { Err(e) => e.kind == ErrorKind::ContradictoryPaths, Ok(_) => true },
+        {
+//@ spec
+    requires
+        graph.wf_nodes(),
+        graph.wf_rows(),
+        // the target, when given, must be a node: its position is looked up with unwrap()
+        opt_known(graph, &target),
+//@ end
+
+// R-ext (A5) for all_pairs: the rayon twin of all_pairs_iter (its return type names rayon types, which cannot be linked here) together
+// with its collect is ASSUMED under the precondition proved necessary for the sequential twin; `iterator.collect()` and the final
+// index -> name conversion (tuple-pattern closure) are ASSUMED total
+#[verifier::external_body]
+pub fn vall_pairs_par_collect<T, A>(graph: &Graph<T, A>, weighted: bool, target: Option<T>, cutoff: Option<f64>, first_only: bool, with_paths: bool) -> (r: Result<Vec<(usize, Vec<(usize, ShortestPathInfo<usize>)>)>, Error>)
+    where T: Hash + Eq + Clone + Ord + Display + Send + Sync, A: Clone + Send + Sync,
+    requires graph.wf_nodes(), graph.wf_rows(), opt_known(graph, &target),
+    ensures match r { Err(e) => e.kind == ErrorKind::ContradictoryPaths, Ok(_) => true },
+{ unimplemented!() }
+// `iterator.collect::<Result<Vec<_>, Error>>()`: ASSUMED to return Ok(all items) or one of the errors the iterator yields; nothing is
+// known here about the items of an opaque iterator, so the error kind is not constrained on this path
+#[verifier::external_body]
+pub fn vcollect_results<X, I: Iterator<Item = Result<X, Error>>>(it: I) -> (r: Result<Vec<X>, Error>)
+{ it.collect() }
+#[verifier::external_body]
+pub fn vconvert_all_pairs<T, A>(graph: &Graph<T, A>, v: Vec<(usize, Vec<(usize, ShortestPathInfo<usize>)>)>) -> (r: HashMap<T, HashMap<T, ShortestPathInfo<T>>>)
+    where T: Hash + Eq + Clone + Ord + Display + Send + Sync, A: Clone + Send + Sync,
+    requires graph.wf_nodes(),
+{ unimplemented!() }
+
+//@ extract fn src/algorithms/shortest_path/dijkstra.rs all_pairs props=C08,C20
+//@ rewrite
+) -> Result<HashMap<T, HashMap<T, ShortestPathInfo<T>>>, Error>
+//@ with
+) -> (r: Result<HashMap<T, HashMap<T, ShortestPathInfo<T>>>, Error>)
+//@ rewrite
+rayon::current_num_threads()
+//@ with
+vrayon_threads()
+//@ rewrite
+let iterator =
+                all_pairs_par_iter(graph, weighted, target, cutoff, first_only, with_paths);
+            iterator.collect::<Result<Vec<(usize, Vec<(usize, ShortestPathInfo<usize>)>)>, Error>>()?
+//@ with
+vall_pairs_par_collect(graph, weighted, target, cutoff, first_only, with_paths)?
+//@ rewrite
+with_paths);
+            iterator.collect::<Result<Vec<(usize, Vec<(usize, ShortestPathInfo<usize>)>)>, Error>>()?
+        }
+    };
+//@ with
+with_paths);
+            vcollect_results(iterator)?
+        }
+    };
+//@ rewrite
+let x = shortest_paths_vecs
+        .into_iter()
+        .map(|(source, shortest_paths)| {
+            let source_name = graph.get_node_by_index(&source).unwrap().name.clone();
+            let shortest_paths_t = convert_shortest_path_info_vec_to_t_map(graph, shortest_paths);
+            (source_name, shortest_paths_t)
+        })
+        .collect();
+//@ with
+let x = vconvert_all_pairs(graph, shortest_paths_vecs);
+//@ spec
+    requires
+        graph.wf_nodes(),
+        graph.wf_rows(),
+        graph.wf_estore(),
+    ensures
+        // [C08.all_pairs.error_channel]
+        // an unknown target is answered with NodeNotFound before any search (unless the weighted-graph guard fails first)
+        target.is_some() && !graph.knows(target.unwrap()) ==> r.is_err(),
+        target.is_some() && !graph.knows(target.unwrap()) && !weighted ==> is_err_kind(r, ErrorKind::NodeNotFound),
+//@ end
 } // verus!
 fn main() {}
